@@ -69,6 +69,15 @@ def jobs(tier, seed):
                             split={"rng0": ["eq", 0], "rng1": ["notin", [0, 1]]}))
             out.append(dict(h="item", gen=gen, n=3, kwargs=kw, endpoint=eo, identity=[], K=None, max_seconds=3300,
                             split={"rng0": ["eq", 1], "rng1": ["notin", [0, 1]]}))
+    # cyclic 3x3 mazes through the whole item pipeline: percolation whose 18 edge draws are fixed to a seeded base maze (dense, so
+    # that it has cycles) except for 3 draws that stay symbolic; the endpoint draws stay symbolic (all 72 ordered pairs)
+    rng = np.random.default_rng(seed + 303)
+    for k in range(3 if q else 16):
+        free = sorted(int(x) for x in rng.choice(18, size=3, replace=False))
+        sp = {f"unit{i}": ["unit", 0.0 if rng.random() < 0.8 else 0.99] for i in range(18) if i not in free}
+        for eo in ([{}] if q else [{}, dict(deadend_start=True), dict(allowed_end=[[0, 0], [1, 1], [2, 2]], endpoints_not_equal=True)]):
+            out.append(dict(h="item", gen="gen_percolation", n=3, kwargs=dict(p=0.5), endpoint=eo, identity=[], K=None, split=sp, max_seconds=3300,
+                            label=f"item:gen_percolation 3x3 around base #{k} (free draws {free}) endpoint={eo}"))
     # dataset level: count and every item
     for gen, kw in [("gen_dfs", {}), ("gen_percolation", dict(p=1.0))]:
         for nm in ([0, 1] if q else [0, 1, 2]):
@@ -249,7 +258,7 @@ META = dict(
                "TargetedLatticeMaze.__post_init__", "all five generators"],
     bounds=dict(
         quick="every RNG draw symbolic; grid_n=2 for all five generators (+ constrained variants) x 12 endpoint-option combinations (single options and allowed-list + dead-end combined); grid_n=3 for gen_dfs "
-              "x 2 endpoint combinations; MazeDataset.generate with n_mazes in {0,1} at grid_n=2 (n_mazes=1 for every endpoint-option combination); Wilson walk bound K=8",
+              "x 3 endpoint combinations and for percolation around 3 seeded dense (cyclic) base mazes with 3 of the 18 edge draws symbolic and all endpoint draws symbolic; MazeDataset.generate with n_mazes in {0,1} at grid_n=2 (n_mazes=1 for every endpoint-option combination); Wilson walk bound K=8",
         thorough="grid_n=3 also for constrained dfs, prim, percolation, dfs_percolation x all 12 endpoint combinations; n_mazes up to 2",
     ),
     degenerate=dict(item="for tree generators every path is one concrete random execution (enumeration of the RNG decision tree); "
